@@ -24,13 +24,18 @@ theorem serverRole_bumps (H : Hs) (tok : Nat) (tt : Option Nat) : (serverRole H 
   refine ⟨?_, fun _ _ _ _ => rfl, ?_⟩
   · intro n c t b
     simp only [serverRole, serverClientHello]
-    cases H.parseClientHello b with
-    | error e => rfl
-    | ok ver =>
-      simp only
-      split
-      · rfl
-      · split <;> rfl
+    have hk : (bump n c).key = c.key := rfl
+    rw [hk]
+    by_cases hs : c.key.isSome = true
+    · rw [if_pos hs, if_pos hs]
+    · rw [if_neg hs, if_neg hs]
+      cases H.parseClientHello b with
+      | error e => rfl
+      | ok ver =>
+        simp only
+        split
+        · rfl
+        · split <;> rfl
   · intro n c t b
     simp only [serverRole, serverChallenge]
     cases H.parseChallenge b with
